@@ -16,10 +16,22 @@ pub fn mod_(
     let x = quantity_arg!(args);
     let y = quantity_arg!(args);
 
-    let x_value = x.unsafe_value().to_f64();
-    let y_value = y.convert_to(x.unit()).unwrap().unsafe_value().to_f64();
+    // A zero value can be converted to any unit (the literal `0` is polymorphic),
+    // so a zero dividend must not determine the unit of the computation.
+    let unit = if x.is_zero() { y.unit() } else { x.unit() };
 
-    return_quantity!(x_value.rem_euclid(y_value), x.unit().clone())
+    let x_value = x
+        .convert_to(unit)
+        .map_err(RuntimeErrorKind::QuantityError)?
+        .unsafe_value()
+        .to_f64();
+    let y_value = y
+        .convert_to(unit)
+        .map_err(RuntimeErrorKind::QuantityError)?
+        .unsafe_value()
+        .to_f64();
+
+    return_quantity!(x_value.rem_euclid(y_value), unit.clone())
 }
 
 // A simple math function with signature 'Fn[(Scalar) -> Scalar]'
@@ -66,8 +78,20 @@ pub fn atan2(
     let y = quantity_arg!(args);
     let x = quantity_arg!(args);
 
-    let y_value = y.unsafe_value().to_f64();
-    let x_value = x.convert_to(y.unit()).unwrap().unsafe_value().to_f64();
+    // A zero value can be converted to any unit (the literal `0` is polymorphic),
+    // so a zero argument must not determine the unit of the computation.
+    let unit = if y.is_zero() { x.unit() } else { y.unit() };
+
+    let y_value = y
+        .convert_to(unit)
+        .map_err(RuntimeErrorKind::QuantityError)?
+        .unsafe_value()
+        .to_f64();
+    let x_value = x
+        .convert_to(unit)
+        .map_err(RuntimeErrorKind::QuantityError)?
+        .unsafe_value()
+        .to_f64();
 
     return_scalar!(y_value.atan2(x_value))
 }
